@@ -16,7 +16,9 @@ let op_of_json j =
   | [JStr "pass"; net; lim] -> OpPass (jbool net, jz lim)
   | [JStr "clean"; cl; nl] -> OpClean (jz cl, jz nl)
   | [JStr "add"; b] -> OpAdd (blob_of_json b)
-  | _ -> raise (Model_error "op: expected [pass, net, limit] | [clean, cl, nl] | [add, blob]")
+  | [JStr "delete"; hs] -> OpDelete (Stdlib.List.map jn (jlist hs))
+  | JStr "status" :: _ -> OpStatus
+  | _ -> raise (Model_error "op: expected [pass, net, limit] | [clean, cl, nl] | [add, blob] | [delete, ids] | [status, what]")
 let json_of_blob b = JArr [of_n b.b_hash; of_n b.b_len; of_n b.b_added; of_bool b.b_mine; of_bool b.b_fin]
 let json_of_row ((h, l), a) = JArr [of_n h; of_n l; of_n a]
 let observe d =
